@@ -1,9 +1,9 @@
 package rules
 
 import (
-	"go/constant"
 	"fmt"
 	"go/ast"
+	"go/constant"
 	"go/token"
 	"go/types"
 	"sort"
@@ -988,10 +988,22 @@ func ruleLX(parts ...string) Rule {
 				info := f.Info()
 				var blankObj types.Object
 				f.OwnNodes(func(n ast.Node) bool {
-					if vs, ok := n.(*ast.ValueSpec); ok {
-						for _, nm := range vs.Names {
+					switch n := n.(type) {
+					case *ast.ValueSpec:
+						for _, nm := range n.Names {
 							if o := info.Defs[nm]; o != nil && o.Type().String() == "bool" {
 								blankObj = o
+							}
+						}
+					case *ast.AssignStmt:
+						// `blank := …` declares it just as well
+						if n.Tok == token.DEFINE {
+							for _, l := range n.Lhs {
+								if id, ok := l.(*ast.Ident); ok {
+									if o := info.Defs[id]; o != nil && o.Type().String() == "bool" && blankObj == nil {
+										blankObj = o
+									}
+								}
 							}
 						}
 					}
